@@ -200,7 +200,9 @@ class NamedGlob:
 
     @_regex.default
     def _default_regex(self) -> re.Pattern[str]:
-        return re.compile(convert_nglob_to_regex(self._pattern, self._subs))
+        # DOTALL: a recursive `**` becomes `.*`, which must also match a newline in a file name,
+        # just like `*` (`[^/]*`) and the standard `glob` module do.
+        return re.compile(convert_nglob_to_regex(self._pattern, self._subs), re.DOTALL)
 
     @property
     def pattern(self) -> str:
